@@ -44,7 +44,8 @@ def run_variant(v):
             mod.run(ctx)
         except extract.ExtractError as ex:
             return "NOCOMPILE", str(ex)[-600:]
-        failed = [o for o in ctx.obs if not o.ok]
+        known = {k["key"] for k in core.load_known().get("findings", []) if k.get("status") == "open"}
+        failed = [o for o in ctx.obs if not o.ok and o.key(v["prop"]) not in known]
         return "RAN", failed
     finally:
         restore(touched)
